@@ -33,8 +33,42 @@ package layouts
 import (
 	"encoding/json"
 	"fmt"
+	"path"
+	"sort"
 	"strings"
 )
+
+// requirements.txt (pip.pypa.io/en/stable/reference/requirements-file-format, and the
+// python/requirements extractor's own documentation of what it leaves out):
+//   - "A line ending in an unescaped \ is treated as a line continuation and the newline
+//     following it is effectively ignored"; a comment line ends a continuation; "comments are
+//     stripped after line continuations are processed"; a comment is a '#' at the start of the
+//     line or after whitespace, to the end of the (joined) line.
+//   - pip expands ${NAME} (upper-case letters, digits, underscore) from the environment; the
+//     extractor documents that it ignores lines with such references.
+//   - "-r file" / "--requirement file" include another requirements file, relative to the
+//     including file; the extractor documents that it follows "-r" and reports the packages of
+//     an included file with the locations [scanned file, included file]; each file is read
+//     once. Other option lines (-c, -i, ...) list nothing.
+//   - a requirement line is a PEP 508 requirement followed by per-requirement options (the
+//     first blank-separated word that starts with '-' and everything after it); the marker
+//     follows ';'. The extractor documents which version it reports: the one of a single ==,
+//     ===, >=, <=, ~= clause; none (empty) for other operators, several clauses, wildcards or
+//     no clause.
+//
+// ReferenceReadFiles is ReferenceRead for renderings of several files; locations are reported
+// only by readers that decide them (requirements), nil otherwise.
+func ReferenceReadFiles(format, mainPath string, files map[string][]byte) (out []Located, ok bool, err error) {
+	if format == "requirements" {
+		out, err = refReadRequirements(mainPath, files)
+		return out, true, err
+	}
+	pairs, ok, err := ReferenceRead(format, files[mainPath])
+	for _, p := range pairs {
+		out = append(out, Located{Pair: p})
+	}
+	return out, ok, err
+}
 
 // ReferenceRead returns the sorted set of (name, version) pairs the file lists, for the
 // formats that have a reference reader (ok = false otherwise).
@@ -240,5 +274,186 @@ func refReadGoMod(content []byte) ([]Pair, error) {
 	if std != "" {
 		out = append(out, Pair{"stdlib", std})
 	}
+	return out, nil
+}
+
+// refPipLogicalLines implements pip's line joining and comment stripping.
+func refPipLogicalLines(content []byte) []string {
+	text := strings.ReplaceAll(string(content), "\r\n", "\n")
+	text = strings.ReplaceAll(text, "\r", "\n")
+	phys := strings.Split(text, "\n")
+	if n := len(phys); n > 0 && phys[n-1] == "" {
+		phys = phys[:n-1]
+	}
+	isCommentLine := func(s string) bool { return strings.HasPrefix(strings.TrimLeft(s, " \t\f\v"), "#") }
+	var joined []string
+	pending, open := "", false
+	for _, ln := range phys {
+		if !strings.HasSuffix(ln, "\\") || isCommentLine(ln) {
+			if isCommentLine(ln) {
+				ln = " " + ln
+			}
+			joined = append(joined, pending+ln)
+			pending, open = "", false
+			continue
+		}
+		pending += strings.Trim(ln, "\\")
+		open = true
+	}
+	if open {
+		joined = append(joined, pending)
+	}
+	var out []string
+	for _, ln := range joined {
+		// strip the comment: '#' at the start or after whitespace
+		for i := 0; i < len(ln); i++ {
+			if ln[i] == '#' && (i == 0 || ln[i-1] == ' ' || ln[i-1] == '\t') {
+				ln = ln[:i]
+				break
+			}
+		}
+		if ln = strings.TrimSpace(ln); ln != "" {
+			out = append(out, ln)
+		}
+	}
+	return out
+}
+
+// refHasEnvReference: the line holds ${NAME} with NAME of upper-case letters, digits, '_'.
+func refHasEnvReference(s string) bool {
+	for i := 0; i+2 < len(s); i++ {
+		if s[i] != '$' || s[i+1] != '{' {
+			continue
+		}
+		j := i + 2
+		for j < len(s) && (s[j] >= 'A' && s[j] <= 'Z' || s[j] >= '0' && s[j] <= '9' || s[j] == '_') {
+			j++
+		}
+		if j > i+2 && j < len(s) && s[j] == '}' {
+			return true
+		}
+	}
+	return false
+}
+
+// refParseRequirement reads "name [extras] clauses" and returns the name and the version the
+// extractor documents to report.
+func refParseRequirement(s string) (name, version string, ok bool) {
+	isNameChar := func(c byte) bool {
+		return c >= 'a' && c <= 'z' || c >= 'A' && c <= 'Z' || c >= '0' && c <= '9' || c == '.' || c == '_' || c == '-'
+	}
+	i := 0
+	for i < len(s) && isNameChar(s[i]) {
+		i++
+	}
+	name = s[:i]
+	if name == "" {
+		return "", "", false
+	}
+	rest := strings.TrimSpace(s[i:])
+	if strings.HasPrefix(rest, "[") {
+		j := strings.IndexByte(rest, ']')
+		if j < 0 {
+			return "", "", false
+		}
+		rest = strings.TrimSpace(rest[j+1:])
+	}
+	if rest == "" {
+		return name, "", true
+	}
+	if strings.HasPrefix(rest, "@") {
+		return name, "", true // direct reference: no version clause
+	}
+	rest = strings.Trim(rest, "()")
+	clauses := strings.Split(rest, ",")
+	if len(clauses) != 1 {
+		return name, "", true
+	}
+	cl := strings.TrimSpace(clauses[0])
+	for _, op := range []string{"===", "==", "~=", ">=", "<="} {
+		if v, found := strings.CutPrefix(cl, op); found {
+			v = strings.TrimSpace(v)
+			if strings.Contains(v, "*") {
+				return name, "", true
+			}
+			return name, v, true
+		}
+	}
+	for _, op := range []string{"!=", "<", ">"} {
+		if strings.HasPrefix(cl, op) {
+			return name, "", true
+		}
+	}
+	return "", "", false
+}
+
+func refReadRequirements(mainPath string, files map[string][]byte) ([]Located, error) {
+	var out []Located
+	read := map[string]bool{mainPath: true}
+	queue := []string{mainPath}
+	for len(queue) > 0 {
+		p := queue[0]
+		queue = queue[1:]
+		content, present := files[p]
+		if !present {
+			return nil, fmt.Errorf("included file %q is not part of the rendering", p)
+		}
+		for _, ln := range refPipLogicalLines(content) {
+			if refHasEnvReference(ln) {
+				continue
+			}
+			if strings.HasPrefix(ln, "-") {
+				words := strings.Fields(ln)
+				target := ""
+				switch w := words[0]; {
+				case w == "-r" || w == "--requirement":
+					if len(words) != 2 {
+						return nil, fmt.Errorf("include line %q", ln)
+					}
+					target = words[1]
+				case strings.HasPrefix(w, "--requirement="):
+					target = strings.TrimPrefix(w, "--requirement=")
+				case strings.HasPrefix(w, "-r") && !strings.HasPrefix(w, "--"):
+					target = strings.TrimPrefix(w, "-r")
+				}
+				if target != "" {
+					q := path.Join(path.Dir(p), target)
+					if !read[q] {
+						read[q] = true
+						queue = append(queue, q)
+					}
+				}
+				continue
+			}
+			// per-requirement options: from the first word that starts with '-'
+			words := strings.Fields(ln)
+			req := ""
+			for k, w := range words {
+				if k > 0 && strings.HasPrefix(w, "-") {
+					break
+				}
+				req += " " + w
+			}
+			req, _, _ = strings.Cut(req, ";")
+			name, version, ok := refParseRequirement(strings.TrimSpace(req))
+			if !ok {
+				return nil, fmt.Errorf("%s: cannot read requirement line %q", p, ln)
+			}
+			locs := []string{mainPath}
+			if p != mainPath {
+				locs = append(locs, p)
+			}
+			out = append(out, Located{Pair{name, version}, locs})
+		}
+	}
+	sort.SliceStable(out, func(i, j int) bool {
+		if out[i].Name != out[j].Name {
+			return out[i].Name < out[j].Name
+		}
+		if out[i].Version != out[j].Version {
+			return out[i].Version < out[j].Version
+		}
+		return strings.Join(out[i].Locations, "\x00") < strings.Join(out[j].Locations, "\x00")
+	})
 	return out, nil
 }
